@@ -165,7 +165,10 @@ func (w *World) emitHooks(step int, rpc string) error {
 		}
 	}
 	for _, pp := range open {
+		// the handler panicked (or is blocked): no pp.exit was seen
 		pp["ok"], pp["err"] = false, "handler did not return"
+		pp["res"] = map[string]any{"cp": []any{0, 0}, "pulled": []any{}, "snap": false,
+			"hasvv": false, "vv": map[string]any{}, "removed": false, "snappres": ""}
 		w.T.Emit(pp)
 	}
 	return nil
@@ -381,7 +384,7 @@ func (w *World) Step(no int, st Step, b *Behaviour) error {
 		}
 		for _, op := range b.Init {
 			op := op
-			if err := w.Step(no, Step{A: "edit", C: st.C, D: st.D, Op: &op}, b); err != nil {
+			if err := w.Step(no, Step{A: "edit", C: st.C, D: st.D, Op: &op, Opt: map[string]any{"setup": true}}, b); err != nil {
 				return err
 			}
 		}
@@ -423,6 +426,8 @@ func (w *World) Step(no int, st Step, b *Behaviour) error {
 			return nil
 		}
 		err := SetupRoot(rep.D, b.Kinds)
+		// the set-up is scaffolding, not part of the program whose edits undo/redo walk through
+		_ = rep.D.ClearHistory()
 		ev["ev"] = "Edit"
 		ev["op"] = map[string]any{"k": "setup"}
 		ev["outcome"] = "ok"
@@ -437,6 +442,9 @@ func (w *World) Step(no int, st Step, b *Behaviour) error {
 		cont := opContainer(st.Op.K)
 		pre, preok := APIView(rep.D, cont)
 		res := ApplyOp(rep.D, *st.Op, base, optStr(st.Opt, "fail"))
+		if optBool(st.Opt, "setup") {
+			_ = rep.D.ClearHistory()
+		}
 		post, postok := APIView(rep.D, cont)
 		dv, dvok := DocView(rep.D, cont)
 		if preok && postok && dvok && cont != "" {
